@@ -36,5 +36,14 @@ CHECKS["C20"] = dict(
     note="properly nested journals; nesting <= 2 (quick) / 3 (thorough); entries of raising operations tolerated (weak reading)",
 )
 
+ENGINES.append({"name": "multidevice", "path": "specs/ir/MultiDevice.tla", "serves_properties": ["C19"],
+                "kind_free_text": "annotations bound to value/configuration object ids over IRGraph; shard/set_pipeline_stage/add/remove(cascade) transcribed with rejection branches; MultiDeviceMC.tla; harness/vfh/irmd.py"})
+CHECKS["C19"] = dict(
+    engine="multidevice", design_ref="DESIGN.md §4 C19",
+    technique="TLC model checking of MultiDeviceMC.tla (NoDangle/WellFormed invariants) + replay of every (state, call) into a real ir.Model + per-state checker / serialization / round-trip / clone checks against the spec's SerAnn",
+    text="annotations are modelled as bound to value and configuration object ids; TLC checks NoDangle, WellFormed and Canonical over all interleavings of annotation calls (incl. every rejection branch) with graph edits and renames; every explored (state, call) is executed on a real model comparing the annotation projection by identity; on every state the library's own device-configuration check must be silent, the serialized references must equal the spec's prediction by current names, and IR-version-11 round trip and Model.clone must preserve them.",
+    note="small scope: 2 nodes, <=9 values, <=2 configurations, <=2-3 calls after the seed; assumptions listed in evidence",
+)
+
 _PENDING = "check not built yet in this round (specification planned in DESIGN.md §4); not claimed until its TLA+ model and binding exist"
-NOT_APPLICABLE = {p: _PENDING for p in ["C02", "C03", "C04", "C05", "C07", "C08", "C09", "C10", "C11", "C12", "C14", "C15", "C16", "C17", "C18", "C19"]}
+NOT_APPLICABLE = {p: _PENDING for p in ["C02", "C03", "C04", "C05", "C07", "C08", "C09", "C10", "C11", "C12", "C14", "C15", "C16", "C17", "C18"]}
